@@ -78,9 +78,14 @@ func checkW1(c *Ctx, r *Report) {
 			fmt.Sprintf("the *ContentFileInfo held by a plan entry must be allocated during the call; may point to %v — the packagers' later writes (owner/group/mode/mtime defaults) would go into the parsed configuration", shared))
 	}
 
-	// (c): no store through an input object anywhere in package files
+	// (c): no store through an input object anywhere in the planner (the
+	// functions of package files reachable from PrepareForPackager)
 	stores := 0
+	planner := c.Reach(prep)
 	for _, fn := range pa.fns {
+		if !planner[fn] {
+			continue
+		}
 		perFn := 0
 		forEachInstr(fn, func(in ssa.Instruction) {
 			st, ok := in.(*ssa.Store)
